@@ -55,7 +55,8 @@ def _consts(quick: bool) -> dict:
         return {"Outs": Raw('{"ok", "miss", "inv", "exp", "ve", "pe", "proof", "down", "bogus"}'),
                 "Outs3": Raw('{"ok", "miss", "exp", "pe", "down"}'), "Deep": False}
     return {"Outs": Raw('{"ok", "miss", "inv", "exp", "scope", "proxy", "unauth", "ve", "pe", "proof", "down", "bogus"}'),
-            "Outs3": Raw('{"ok", "miss", "inv", "exp", "ve", "pe", "down"}'), "Deep": True}
+            "Outs3": Raw('{"ok", "miss", "inv", "exp", "scope", "proxy", "unauth", "ve", "pe", "proof", "down", "bogus"}'),
+            "Deep": True}
 
 
 class _Services:
@@ -244,7 +245,7 @@ def run(ctx: Ctx) -> None:
     rec = getattr(ctx, "replay_record", None)
     cases: list = []
     ccases: list = []
-    if rec:
+    if rec and rec["detail"].get("side") in ("server", "client"):
         d = rec["detail"]
         (ccases if d.get("side") == "client" else cases).append({"case": d["case"], "exp": d.get("exp", {})})
     else:
@@ -268,19 +269,26 @@ def run(ctx: Ctx) -> None:
     for cj in cases:
         case = cj["case"]
         key, (client, book) = svc.app(case["cfg"], case["tree"])
-        hdrs = W.tree_headers(case["tree"], ctx.rng)
-        acc = ACCEPT[case["accept"]]
-        if acc is not None:
-            hdrs["Accept"] = acc
-        W.reset()
-        status, rh, content = _send(client, case["route"], hdrs, ubody)
-        o, note = _observe(status, rh, content)
-        if status == 401:
-            nid = book["notes"].setdefault(note, len(book["notes"]) + 1) if note != json.dumps(["", ""]) else 0
-            book["seq"].append(nid)
-        conc = {"service": key, "route": case["route"], "headers": {k: v for k, v in sorted(hdrs.items())}}
-        obs.append({"case": case, "obs": o, "_c": conc, "_exp": cj["exp"], "_log": list(W.LOG)})
-        ctx.case([key, case["route"], sorted(hdrs.items())])
+        real = '"bearer"' in json.dumps(case["tree"]) or '"proof_' in json.dumps(case["tree"])
+        seen_h = set()
+        for _variant in range(1 if (quick or not real) else 3):      # several concrete credentials / proofs per class
+            hdrs = W.tree_headers(case["tree"], ctx.rng)
+            acc = ACCEPT[case["accept"]]
+            if acc is not None:
+                hdrs["Accept"] = acc
+            hk = json.dumps({k: (v if k != "VGI-Proxy-Proof" else v.split(".")[1:3]) for k, v in sorted(hdrs.items())})
+            if hk in seen_h and _variant:
+                continue
+            seen_h.add(hk)
+            W.reset()
+            status, rh, content = _send(client, case["route"], hdrs, ubody)
+            o, note = _observe(status, rh, content)
+            if status == 401:
+                nid = book["notes"].setdefault(note, len(book["notes"]) + 1) if note != json.dumps(["", ""]) else 0
+                book["seq"].append(nid)
+            conc = {"service": key, "route": case["route"], "headers": {k: v for k, v in sorted(hdrs.items())}}
+            obs.append({"case": case, "obs": o, "_c": conc, "_exp": cj["exp"], "_log": list(W.LOG)})
+            ctx.case([key, case["route"], sorted(hdrs.items())])
     for o in (obs[:: max(1, len(obs) // 3)])[:3]:
         ctx.sample({"abstract_case": o["case"], "oracle": o["_exp"], "concrete": o["_c"], "observed": o["obs"],
                     "authenticator_log": o["_log"]})
